@@ -272,7 +272,8 @@ def loaders_obligation():
                  make_line(it, "EDGE_SE2", evals, " ", "\n")]
         it.vfs["a.g2o"] = VFile("a.g2o", lines)
         ref = it.call_classmethod(ClassRef("Graph"), "from_g2o", ["a.g2o"])
-        loaders = sorted(n for n, f in it.pkg.funcs.items() if it.pkg.func_module[n].endswith("load.py"))
+        loaders = sorted(n for n, f in it.pkg.funcs.items() if it.pkg.func_module[n].endswith("load.py") and not n.startswith("_")
+                         and len(f.args.args) - len(f.args.defaults) == 1)
         if len(loaders) < 5:
             raise ObFail("only %d loader wrappers found in load.py" % len(loaders))
         for name in loaders:
